@@ -217,6 +217,17 @@ class Machine:
                 diff = [i for i in set(n1) | set(n2) if n1.get(i) != n2.get(i)]
                 what = "metadata" if all(i in n1 and i in n2 and n1[i][:3] == n2[i][:3] for i in diff) else "nodes"
                 fails.append((f"{kind}:{what}", f"HUGRs differ at nodes {diff}: tracked {[n1.get(i) for i in diff][:2]} explicit {[n2.get(i) for i in diff][:2]}"))
+            # the finished graphs serialize to the same document (op reprs hide the rows of Input/Output/DFG)
+            def _doc(h):
+                try:
+                    return ("ok", h.to_json())
+                except Exception as e:  # noqa: BLE001
+                    return ("exc", type(e).__name__)
+
+            j1, j2 = _doc(t.hugr), _doc(d.hugr)
+            if j1 != j2 and not fails:
+                what = "serialization-raised" if j1[0] != j2[0] else "document"
+                fails.append((f"{kind}:{what}", f"after {ev}: tracked builder's HUGR serializes to {str(j1)[:160]}, the explicit one to {str(j2)[:160]}"))
         elif not s.done and kind in ("add", "extend"):
             # incremental comparison of the two graphs (only these calls touch the HUGR)
             (n1, l1), (n2, l2) = dump(t.hugr), dump(d.hugr)
